@@ -3178,7 +3178,15 @@ class Map(TraitType):
         return self.map[value]
 
     def post_setattr(self, object, name, value):
-        setattr(object, name + "_", self.mapped_value(value))
+        try:
+            mapped_value = self.mapped_value(value)
+        except Exception:
+            # The value is not one of ours: this happens when the trait is
+            # one alternative of a compound trait and another alternative
+            # accepted the value. TraitCompound handles this exception.
+            raise TraitError("Unmappable")
+
+        setattr(object, name + "_", mapped_value)
 
     def info(self):
         keys = sorted(repr(x) for x in self.map.keys())
@@ -3304,7 +3312,15 @@ class PrefixMap(TraitType):
         return self.map[value]
 
     def post_setattr(self, object, name, value):
-        setattr(object, name + "_", self.mapped_value(value))
+        try:
+            mapped_value = self.mapped_value(value)
+        except Exception:
+            # The value is not one of ours: this happens when the trait is
+            # one alternative of a compound trait and another alternative
+            # accepted the value. TraitCompound handles this exception.
+            raise TraitError("Unmappable")
+
+        setattr(object, name + "_", mapped_value)
 
     def info(self):
         return (
